@@ -110,6 +110,9 @@ def thetas(tier, seed):
         for en, ev in ex + ((('1.4e-7', 1.4e-7),) if (b == 0.0 and ex) else ()):
             for s in (+1, -1):
                 add('%s%s%s' % (nm, '+' if s > 0 else '-', en), b + s * ev)
+    # scale factors a hair off 1 (S * k, S.exp(k) with k typed to a few decimals)
+    for n, v in (('1+4e-6', 1 + 4e-6), ('1-5e-6', 1 - 5e-6), ('1+2e-7', 1 + 2e-7)):
+        add(n, v)
     for n, v in alph.pick(alph.G_ANGLES_SMALL, tier, seed, 4):
         add(n, float(v))
     wide = [g - math.copysign(2 * PI, g) for g in alph.G_ANGLES_SMALL]      # pi < |theta| < 2 pi
@@ -574,15 +577,20 @@ class Twister:
         # vectors of exactly 2, 3, 4, 6, 7 joint values (the lengths of the twist vectors and of the rows of the matrices: shapes that broadcast
         # against the twist itself)
         variants += [('%s#%d' % (f, k), ('#', k)) for k in (2, 3, 4, 6, 7) for f in ('list', 'ndarray')]
+        # a typed table of joint values: multiples of 30 degrees written to six decimals (nearly, not exactly, equally spaced), and its reverse
+        variants += [('list#typed', ('T', 1)), ('ndarray#typed', ('T', 1)), ('list#typed-rev', ('T', -1))]
         for unit in ('rad', 'deg'):
             for form, g1 in variants:
-                cid = self.start('vec/%s/%s%s' % (unit, form, '' if (g1 is None or g1[0] == '#') else '[%s]' % g1[0]))
+                cid = self.start('vec/%s/%s%s' % (unit, form, '' if (g1 is None or g1[0] in ('#', 'T')) else '[%s]' % g1[0]))
                 if not cid:
                     continue
                 S = self.twist()
                 if S is None:
                     return
-                if g1 is not None and g1[0] == '#':
+                if g1 is not None and g1[0] == 'T':
+                    vv = [0.0, 0.523599, 1.047198, 1.570796, 2.094395, 2.617994][::g1[1]]
+                    nm = ['%.6f' % x for x in vv]
+                elif g1 is not None and g1[0] == '#':
                     pick = [i for i, n_ in enumerate(names) if n_ != '0'][:g1[1]]
                     if len(pick) < g1[1]:
                         continue
